@@ -131,6 +131,8 @@ class PolicyDirectoryMonitor(multiprocessing.Process):
                 for p in set(old_p) - set(new_p.keys()):
                     self.disassociate_policy_and_file(p, f)
                     self.restore_or_delete_policy(p)
+                for p in set(self.policy_cache.keys()) - set(new_p.keys()):
+                    self.disassociate_policy_and_file(p, f)
 
     def run(self):
         """
